@@ -293,6 +293,17 @@ func Instrument(root string, plain bool) (*Result, error) {
 					edits = append(edits, edit{off: tf.Offset(v.X.Pos()), text: "zsimrt.MapSeq("})
 					edits = append(edits, edit{off: tf.Offset(v.X.End()), text: ")"})
 				}
+			case *ast.CallExpr:
+				// callbacks that the runtime runs on a goroutine of its own: the simulator cannot own them
+				if sel, ok := v.Fun.(*ast.SelectorExpr); ok {
+					if id, ok := sel.X.(*ast.Ident); ok {
+						name := id.Name + "." + sel.Sel.Name
+						switch name {
+						case "runtime.SetFinalizer", "runtime.AddCleanup", "time.AfterFunc":
+							res.Unowned = append(res.Unowned, fmt.Sprintf("%s:%d: %s (its callback runs on a goroutine of the runtime)", f, fset.Position(v.Pos()).Line, name))
+						}
+					}
+				}
 			case *ast.GoStmt:
 				res.Unowned = append(res.Unowned, fmt.Sprintf("%s:%d: go statement", f, fset.Position(v.Pos()).Line))
 			case *ast.SelectStmt:
